@@ -459,6 +459,40 @@ pub fn cmd_run(id: &str, tier_name: &str) -> ExitCode {
             }
         }
     }
+    if id == "C17" {
+        // the WinconStream impls for Stdout/Stderr and their locks: real handles, fd 1/2 pointed at
+        // a file, in a single-threaded child (see envsim.rs)
+        let report = format!("{VERIF}/target/tmp/c17std-{}.json", std::process::id());
+        let _ = std::fs::create_dir_all(format!("{VERIF}/target/tmp"));
+        let status = std::process::Command::new(std::env::current_exe().unwrap())
+            .args(["c17std", &report])
+            .stdin(std::process::Stdio::null())
+            .stdout(std::process::Stdio::null())
+            .status();
+        let text = std::fs::read_to_string(&report).unwrap_or_default();
+        let _ = std::fs::remove_file(&report);
+        let Ok(rep) = serde_json::from_str::<Value>(&text) else {
+            eprintln!("vsim: HARNESS ERROR: c17std child produced no report ({status:?})");
+            return ExitCode::from(2);
+        };
+        if let Some(e) = rep.get("harness_error") {
+            eprintln!("vsim: HARNESS ERROR: {e}");
+            return ExitCode::from(2);
+        }
+        if !rep["violation"].is_null() {
+            let v = &rep["violation"];
+            let path = format!("{VERIF}/replays/C17-std-{}-{}-{}.json", v["handle"], v["fg"], v["bg"]);
+            let doc = json!({"property": "C17", "engine": "c17std", "violation_class": "bad-framing", "violation_detail": v["detail"], "trace": v,
+                "replay_cmd": format!("{VERIF}/check replay {path}")});
+            let _ = std::fs::write(&path, serde_json::to_string_pretty(&doc).unwrap());
+            println!("violation class=bad-framing (real std handle)\n  {}", v["detail"].as_str().unwrap_or(""));
+            let _ = write_evidence(&meta, &tier, seed, &batch, 1, &known_hits, json!({}), vec![doc]);
+            println!("VIOLATION property=C17 replay={path}");
+            return ExitCode::from(1);
+        }
+        println!("vsim: C17 real std handles: {} coloured writes through Stdout/Stderr/StdoutLock/StderrLock held", rep["evaluations"]);
+        extra = json!({"real_std_handles": {"evaluations": rep["evaluations"], "handles": ["Stdout", "Stderr", "StdoutLock", "StderrLock"], "colour_pairs": 289, "note": "fd 1/2 re-pointed at a regular file in a single-threaded child; output read back and judged by the same framing oracle"}});
+    }
     if id == "C08" {
         // the Auto choice depends on the process environment: envsim part (see envsim.rs)
         let (_, hist) = env_budget(tier.name);
@@ -515,6 +549,9 @@ pub fn cmd_replay(path: &str) -> ExitCode {
             return ExitCode::from(2);
         }
     };
+    if doc.get("engine").and_then(|x| x.as_str()) == Some("c17std") {
+        return ExitCode::from(crate::envsim::c17std_replay(&doc, path) as u8);
+    }
     if doc.get("engine").and_then(|x| x.as_str()) == Some("envsim") {
         return ExitCode::from(crate::envsim::replay(&doc, path) as u8);
     }
